@@ -284,7 +284,8 @@ def smdp_cases(draw, tier="quick"):
     opts = [draw(option_specs(spec)) for _ in range(k)]
     for o in opts:
         o["max_steps"] = draw(st.integers(10, 60))
-    return {"mdp": spec, "options": opts, "n_sims": draw(st.integers(1, 30)),
+    return {"mdp": spec, "options": opts, "n_sims": draw(st.integers(1, 30)), "n_sims_later": draw(st.integers(1, 30)),
+            "distinct_names": draw(st.booleans()),
             "seed": draw(st.one_of(st.sampled_from([0, 1]), st.integers(0, 10 ** 6))),
             "include_mdp_actions": draw(st.booleans())}
 
@@ -297,7 +298,9 @@ def prop_smdp(case, ctx):
     ref = RefMDP(spec)
     gamma = ref.gamma
     S, A = view.S, view.A
-    opts = [make_option(o, view, name_suffix=f"#{i}") for i, o in enumerate(case["options"])]
+    # options may share a name (unnamed PlanToSubgoalOptions all have name None)
+    opts = [make_option(dict(o, name=o["name"] if case.get("distinct_names", True) else "opt"), view,
+                        name_suffix=f"#{i}" if case.get("distinct_names", True) else "") for i, o in enumerate(case["options"])]
     smdp = SemiMarkovDecisionProcess(mdp=mdp, options=opts, n_option_simulations=case["n_sims"],
                                      include_mdp_actions=case["include_mdp_actions"], seed=case["seed"])
     multi = False
@@ -369,6 +372,24 @@ def prop_smdp(case, ctx):
                       "C15.smdp.next_state_marginal")
             mean = sum(g * p for (ns, t, g), p in got.items())
             ctx.check(abs(ecr - mean) <= 1e-9 * (1 + abs(mean)), "C15.smdp.expected_cumulative_reward")
+    # the number of simulations is a plain attribute: after changing it, answers must follow the new value
+    n2 = case.get("n_sims_later")
+    if n2 and n2 != case["n_sims"]:
+        smdp.n_option_simulations = n2
+        for s in sorted(closure(spec))[:3]:
+            for ospec, o in zip(case["options"], opts):
+                if s not in ospec["init"] or s in ospec["term"]:
+                    continue
+                try:
+                    d = smdp.next_state_transit_time_reward_dist(S[s], o)
+                    sims = smdp.run_simulations(S[s], o)
+                except AlgorithmException:
+                    continue
+                ctx.check(len(sims) == n2, "C15.smdp.simulation_count_after_change", lambda: f"{len(sims)} vs {n2}")
+                ctx.check(abs(sum(d.values()) - 1) <= 1e-9, "C15.smdp.outcome_distribution_normalised_after_change",
+                          lambda: f"state {s} option {o.name}: total mass {sum(d.values())} after n_option_simulations {case['n_sims']} -> {n2}")
+    if not case.get("distinct_names", True) and len(opts) > 1:
+        ctx.event("options_share_a_name")
     ctx.nontrivial(multi)
 
 
